@@ -210,6 +210,19 @@ package client
 //@ func KeepAliveTransport
 //@ ensures result != nil && typeis(result, "*github.com/go-openapi/runtime/client.keepAliveTransport") && unboxptr(result, "*keepAliveTransport").wrapped == rt
 
+//@ func transportOrDefault
+//@ ensures result == (left == nil ? right : left)
+//@ assigns \nothing
+
+// EnableConnectionReuse: the transport in use (the client's if a client exists, else the runtime's, else the library default)
+// is wrapped in the draining transport, and nothing else changes
+//@ func (*Runtime).EnableConnectionReuse
+//@ watch KA = call KeepAliveTransport
+//@ requires r != nil
+//@ stable comp:G!net/http.DefaultTransport
+//@ ensures [C12:reuse] calls(KA) == 1 && old(r.client) == nil ==> r.Transport == ret(KA,0,0) && arg(KA,0,0) == (old(r.Transport) == nil ? old(http.DefaultTransport) : old(r.Transport))
+//@ ensures [C12:reuseclient] calls(KA) == 1 && old(r.client) != nil ==> r.client.Transport == ret(KA,0,0) && r.Transport == old(r.Transport) && arg(KA,0,0) == (old(r.client.Transport) != nil ? old(r.client.Transport) : (old(r.Transport) == nil ? old(http.DefaultTransport) : old(r.Transport)))
+
 //@ func (*keepAliveTransport).RoundTrip
 //@ watch RT = invoke (net/http.RoundTripper).RoundTrip
 //@ requires k != nil && k.wrapped != nil
